@@ -1067,6 +1067,7 @@ func (e *Evaluator) evalRules(rules []*Rule) error {
 		if rule.Pattern != nil {
 			cell, err := e.evalExpr(rule.Pattern)
 			if err == errNext {
+				verifEmit("Consume", e.stackTop.depth, 0, "next")
 				return nil
 			}
 			if err != nil {
@@ -1181,6 +1182,7 @@ func EvalProgram(progSrc string, files []InputFile, rootSelectors []string, stdo
 		ev.ruleRoot = NewCell(NewValue(nil))
 		if err := ev.evalStatement(rule.Body); err != nil {
 			if err == errNext {
+				verifEmit("Consume", ev.stackTop.depth, 0, "next")
 				continue
 			}
 			if err == errExit {
@@ -1227,6 +1229,7 @@ func EvalProgram(progSrc string, files []InputFile, rootSelectors []string, stdo
 					ev.ruleRoot = rootCell
 					if err := ev.evalStatement(rule.Body); err != nil {
 						if err == errNext {
+							verifEmit("Consume", ev.stackTop.depth, 0, "next")
 							continue
 						}
 						if err == errExit {
@@ -1251,6 +1254,7 @@ func EvalProgram(progSrc string, files []InputFile, rootSelectors []string, stdo
 					ev.ruleRoot = NewCell(rootVal)
 					if err := ev.evalStatement(rule.Body); err != nil {
 						if err == errNext {
+							verifEmit("Consume", ev.stackTop.depth, 0, "next")
 							continue
 						}
 						if err == errExit {
@@ -1269,6 +1273,7 @@ func EvalProgram(progSrc string, files []InputFile, rootSelectors []string, stdo
 		ev.ruleRoot = NewCell(NewValue(nil))
 		if err := ev.evalStatement(rule.Body); err != nil {
 			if err == errNext {
+				verifEmit("Consume", ev.stackTop.depth, 0, "next")
 				continue
 			}
 			if err == errExit {
